@@ -209,8 +209,17 @@ def shard(ctx):
                    only_tokens=rng.random() < 0.5)
         run_tree(ctx, spec, rng)
         ctx.stratum('random')
+    # ---- inside sequences of other transformations (vt/pipeline.py) ----
+    from . import pipeline
+    pipeline.run(ctx, Cur, ('root_attach',), 1500, 60000)
+
 
 
 def replay(ctx, case):
+    if case.get('kind') == 'pipeline':
+        install(ctx.R)
+        from . import pipeline
+        pipeline.run_case(ctx, Cur, case, ctx.rng('replay'))
+        return
     install(ctx.R)
     run_tree(ctx, case['spec'], ctx.rng('replay'))
